@@ -572,26 +572,9 @@ def gen_op(rng, wd: World, swarm, step, script):
                 continue
             ran = [i for i in cand if wd.st[i].ran]
             ai = rng.choice(ran) if ran and rng.random() < 0.7 else rng.choice(cand)
-            nmin = min(min(s["ndat"]) for s in w["setups"])
-            cmin = min(min(s["nch"]) for s in w["setups"])
-            cls = w["algs"][ai]["cls"]
-            new = gen_params(rng, cls, nmin, cmin)
-            cur = wd.st[ai].cur_params
-            if cur is not None and rng.random() < 0.6:
-                # change exactly one field (anything kept from the previous run under too coarse a key collides here)
-                keys = sorted(k for k in set(cur) | set(new) if k not in ("hc", "ordmin", "step", "calc_unc", "nb")
-                              and cur.get(k) != new.get(k))
-                if keys:
-                    kk = rng.choice(keys)
-                    twin = copy.deepcopy(cur)
-                    if kk in new:
-                        twin[kk] = new[kk]
-                    else:
-                        twin.pop(kk, None)
-                    new = twin
             if wd.st[ai].added_to is not None and rng.random() < 0.6:
                 script.append(lambda r, wd2, si=wd.st[ai].added_to, nm=w["algs"][ai]["name"]: {"op": "run", "setup": si, "name": nm})
-            return {"op": "set_params", "alg": ai, "params": new}
+            return _set_params_op(rng, wd, ai, twin=rng.random() < 0.6)
         if k == "preproc":
             kind = rng.choice(["detrend", "decimate", "filter"])
             op = {"op": "preproc", "setup": si, "kind": kind}
@@ -623,6 +606,57 @@ def gen_op(rng, wd: World, swarm, step, script):
             names = MULTI if w["mode"] == "preger" else SINGLE
             return {"op": "bare_gate", "cls": rng.choice(names), "missing": rng.choice(["data", "fs", "both", "params"])}
     return {"op": "run_all", "setup": 0}
+
+
+def _set_params_op(rng, wd, ai, twin=True):
+    w = wd.w
+    nmin = min(min(s["ndat"]) for s in w["setups"])
+    cmin = min(min(s["nch"]) for s in w["setups"])
+    cls = w["algs"][ai]["cls"]
+    new = gen_params(rng, cls, nmin, cmin)
+    cur = wd.st[ai].cur_params
+    if cur is not None and twin:
+        # change exactly one field (anything kept from the previous run under too coarse a key collides here)
+        keys = sorted(k for k in set(cur) | set(new) if k not in ("hc", "ordmin", "step", "calc_unc", "nb")
+                      and cur.get(k) != new.get(k))
+        if keys:
+            kk = rng.choice(keys)
+            tw = copy.deepcopy(cur)
+            if kk in new:
+                tw[kk] = new[kk]
+            else:
+                tw.pop(kk, None)
+            new = tw
+    return {"op": "set_params", "alg": ai, "params": new}
+
+
+def tuning_script(rng, w):
+    """Directed class: the usual tuning loop on one algorithm - run, change one parameter, run again - with a
+    numerical fault inside some of the re-runs, followed by a clean re-run (state kept on the instance, on the
+    class or at module level between runs shows here)."""
+    cand = [i for i, a in enumerate(w["algs"]) if a["params"] is not None]
+    cand = [i for i in cand if w["algs"][i]["params"].get("nxseg", 0) != 1 and w["algs"][i]["params"].get("ref_ind") != [99]
+            and w["algs"][i]["params"].get("method") != "no_such_method"]
+    if not cand:
+        return []
+    ai = rng.choice(cand)
+    si = w["algs"][ai]["home"]
+    nm = w["algs"][ai]["name"]
+    others = [i for i, a in enumerate(w["algs"]) if a["home"] == si and i != ai]
+    first = sorted([ai] + (rng.sample(others, min(len(others), rng.randint(0, 2))) if others else []))
+    steps = [lambda r, wd: {"op": "add", "setup": si, "algs": first},
+             lambda r, wd: {"op": "run", "setup": si, "name": nm}]
+    for _ in range(rng.randint(1, 3)):
+        steps.append(lambda r, wd: _set_params_op(r, wd, ai, twin=True))
+        if rng.random() < 0.5:
+            def faulted(r, wd):
+                op = {"op": "run", "setup": si, "name": nm}
+                sw = {"faulty": True, "pfault": 1.1}
+                return _with_fault(r, wd, sw, op)
+
+            steps.append(faulted)
+        steps.append(lambda r, wd: {"op": "run", "setup": si, "name": nm} if r.random() < 0.8 else {"op": "run_all", "setup": si})
+    return steps
 
 
 def _mpe_op(rng, wd, si, ai, nmodes=None):
@@ -1413,6 +1447,9 @@ def run_case(seed, tier="quick", case=None, known=()):
         ops_in = None
         nops = swarm["nops"]
         script = poser_script(rng, w) if w["mode"] == "poser" else []
+        if not script and rng.random() < 0.25:
+            script = tuning_script(rng, w)
+            swarm["epilogue"] = True
         if script:
             nops = len(script) + rng.randint(0, 2)
         epilogue = swarm["epilogue"]
